@@ -31,6 +31,7 @@ func init() {
 			busySessionR(r, store, 300*time.Second, 0, 60*time.Second, true)
 			busySession(r, store, 300*time.Second, 0, 70*time.Second)
 			busySession(r, store, 0, 100*time.Second, 101*time.Second)
+			staleSessionProbes(r, store)
 		}
 		if r.unknownViolations() == 0 {
 			// fail closed at the level of Redis commands: a store method in which a command failed reports an error (and the
@@ -55,6 +56,11 @@ func init() {
 			}
 		}
 		r.Extra["interleavings_executed"] = n
+		for _, store := range []string{"mem", "redis"} {
+			if r.unknownViolations() == 0 {
+				rejectedThenOmitted(r, store)
+			}
+		}
 		if r.unknownViolations() == 0 {
 			ownKeySets(r, "[C02]") // the real key provider shared by several filters with different key sets
 		}
@@ -261,4 +267,103 @@ func replicaLogout(r *Run) {
 		r.Case(fmt.Sprintf("replicas|%d", variant))
 		s.close()
 	}
+}
+
+// simLogin: a complete login of a new browser in the given simulation; returns what was issued (nil if the redirect failed).
+func simLogin(s *hSim, life int64, withRefresh bool) *issue {
+	c := s.w.cfg
+	gen := func() [4]string {
+		return [4]string{s.uniq("sid"), s.uniq("nonce"), s.uniq("state"), s.uniq("VERIFIER-marker")}
+	}
+	q1 := hReq{Scheme: "https", Host: "app.example.com", Path: "/app", Gen: gen(), KeysOK: true, IDP: idpAnswer{Kind: "transport"}}
+	s.do(q1)
+	iss := s.issued[q1.Gen[0]]
+	if iss == nil {
+		return nil
+	}
+	cb := mustURL(c.CallbackURI)
+	a := idpAnswer{Kind: "body", TokenType: "Bearer", ExpiresIn: i64(life), Access: s.uniq("ACCESS-marker"),
+		ID: mintToken(tokSpec{Mode: "good", Exp: s.w.rig.clock.Now().Unix() + life, Aud: c.ClientID, Nonce: iss.Nonce, Sub: "user", Extra: s.uniq("j")})}
+	if withRefresh {
+		a.Refresh = s.uniq("REFRESH-marker")
+	}
+	s.do(hReq{Scheme: cb.Scheme, Host: cb.Host, Path: cb.EscapedPath() + "?code=" + s.uniq("code") + "&state=" + iss.State, Cookie: c.cookieName() + "=" + iss.Sid,
+		Gen: gen(), KeysOK: true, IDP: a})
+	return iss
+}
+
+// staleSessionProbes: a session left idle beyond its idle timeout is presented again in every way a client can - on the
+// callback path with a made-up code and state, on the logout-less application paths, twice in a row - and is never honoured.
+func staleSessionProbes(r *Run, store string) {
+	for _, first := range []string{"callback", "app", "callback-then-callback"} {
+		c := genCfg(r, false, 1)
+		c.Store, c.Abs, c.Idle, c.Logout, c.Disc = store, 0, 100*time.Second, false, nil
+		s := newHSim(r, c)
+		c = s.w.cfg
+		iss := simLogin(s, 7200, false)
+		if iss == nil {
+			s.close()
+			continue
+		}
+		gen := func() [4]string {
+			return [4]string{s.uniq("sid"), s.uniq("nonce"), s.uniq("state"), s.uniq("VERIFIER-marker")}
+		}
+		cookie := c.cookieName() + "=" + iss.Sid
+		cb := mustURL(c.CallbackURI)
+		app := hReq{Scheme: "https", Host: "app.example.com", Path: "/app/page", Cookie: cookie, KeysOK: true, IDP: idpAnswer{Kind: "transport"}}
+		cbk := hReq{Scheme: cb.Scheme, Host: cb.Host, Path: cb.EscapedPath() + "?code=made-up&state=made-up", Cookie: cookie, KeysOK: true, IDP: idpAnswer{Kind: "transport"}}
+		app.Gen = gen()
+		s.do(app) // in use
+		s.tick(30 * time.Minute)
+		seq := []hReq{cbk, app}
+		switch first {
+		case "app":
+			seq = []hReq{app, cbk, app}
+		case "callback-then-callback":
+			seq = []hReq{cbk, cbk, app}
+		}
+		for _, q := range seq {
+			q.Gen = gen()
+			s.do(q)
+			s.tick(time.Second)
+		}
+		r.Case("stale|" + store + "|" + first)
+		s.close()
+	}
+}
+
+// rejectedThenOmitted: the token endpoint answers one session's refresh with a body that does not decode although it
+// carries plausible tokens, and right afterwards ANOTHER session's refresh with a token response that omits everything
+// optional. Nothing of the rejected answer may surface in the second session.
+func rejectedThenOmitted(r *Run, store string) {
+	c := genCfg(r, false, 2)
+	c.Store, c.Abs, c.Idle, c.Access, c.Disc = store, 0, 0, true, nil
+	s := newHSim(r, c)
+	defer s.close()
+	c = s.w.cfg
+	alice, bob := simLogin(s, 30, true), simLogin(s, 30, true)
+	if alice == nil || bob == nil {
+		return
+	}
+	gen := func() [4]string {
+		return [4]string{s.uniq("sid"), s.uniq("nonce"), s.uniq("state"), s.uniq("VERIFIER-marker")}
+	}
+	for round := 0; round < 3; round++ {
+		s.tick(40 * time.Second) // both sessions' tokens are expired, both hold a refresh token
+		stale := mintToken(tokSpec{Mode: "good", Exp: s.w.rig.clock.Now().Unix() + 600, Aud: c.ClientID, Sub: "alice", Extra: s.uniq("rejected")})
+		s.secrets = append(s.secrets, "REJECTED-refresh-token")
+		raw := fmt.Sprintf(`{"id_token":%q,"access_token":"REJECTED-access-token","refresh_token":"REJECTED-refresh-token","token_type":"Bearer","expires_in":"3600"}`, stale)
+		s.do(hReq{Scheme: "https", Host: "app.example.com", Path: "/app/page", Cookie: c.cookieName() + "=" + alice.Sid, Gen: gen(), KeysOK: true, IDP: idpAnswer{Kind: "raw", Raw: raw}})
+		s.do(hReq{Scheme: "https", Host: "app.example.com", Path: "/app/page", Cookie: c.cookieName() + "=" + bob.Sid, Gen: gen(), KeysOK: true,
+			IDP: idpAnswer{Kind: "body", TokenType: "Bearer", ExpiresIn: i64(30)}})
+		s.do(hReq{Scheme: "https", Host: "app.example.com", Path: "/app/page", Cookie: c.cookieName() + "=" + bob.Sid, Gen: gen(), KeysOK: true, IDP: idpAnswer{Kind: "transport"}})
+		if s.stop {
+			break
+		}
+		alice = simLogin(s, 30, true) // alice's session ended with the rejected refresh: she logs in again
+		if alice == nil {
+			break
+		}
+	}
+	r.Case("rejected-then-omitted|" + store)
 }
